@@ -33,8 +33,10 @@ def rows(idx, nlines=2):
         it = Interp(idx, types={"self": "CsvPath"}, unknown_calls="residual", inline_all={"CsvPath"},
                     domains={"self.scanner": [Obj("scanner")], "self._next_line()": [lines]},
                     handlers={"self._consider_line": consider, "self.limit_collection": limit, "self.finalize": fin,
-                              "self.unmatched.append": unm_append, "len": lambda i, c, r, a, k: 1})
-        store = {"self.stopped": False, "self.unmatched": None}
+                              "self.unmatched.append": unm_append, "len": lambda i, c, r, a, k: len(a[0]) if isinstance(a[0], (list, tuple, dict, str)) else 1})
+        # no collect() projection in this model (the projection itself is tabulated in C06.R3 / C07.R6)
+        from . import common as K
+        store = {"self.stopped": False, "self.unmatched": None, "self.limit_collection_to": [], "self." + K.names(idx)["limit"]: []}
         eager = {"self.will_run": [True, False], "self.collecting": [False, True], "self.unmatched_available": [False, True],
                  "self.line_monitor.physical_end_line_count": [None, 0, 3]}
         for p in it.run_eager(fi, eager, args={"csvpath": None}, store=store):
